@@ -118,6 +118,8 @@ CHECKS["C18"]["text"] += " The indentation clause C18_Indent (own-line comments 
 CHECKS["C08"]["text"] += " Edit.tla also generates MALFORMED requests (8 kinds of malformed path, 6 kinds of invalid value), alone and inside longer histories: they must be refused and leave the document as it was."
 CHECKS["C05"]["text"] += " Values are also spelled with surrounding blanks and with leading / trailing comments (same abstract value), and C05_OthersKept requires the attribute trees of the body and of every other let layer to stay what they were."
 CHECKS["C09"]["text"] += " C09 also owns the effect clause for scope-prefixed operations (@name must write the layer's binding) and replays every scoped history on documents with trivia owned by the let layers (a comment after every `in')."
+CHECKS["C10"]["text"] += " Calls: a directly applied function whose argument is a NAME closes every chain of <= 2 extended frames (MC_Scoping!AddCall, theorem Thm_CallSiteArg); the argument is resolved at the call site, the call's own let included."
+CHECKS["C17"]["text"] += " The working directory may change between two hops (field at of a hop: open, chdir, follow)."
 CHECKS["C10"]["text"] += " Docs.tla adds histories in which a reference OBJECT read from one document is assigned into another (scoped or plain) document after the first was discarded: it must resolve in its new place or raise ResolutionError."
 CHECKS["C11"]["text"] += " Every editable chain also runs the three-step history set x; set @a; set x on ONE object; the third step is judged on the chain the second step left behind."
 CHECKS["C12"]["text"] += " Reserved words of the grammar are names as well: bare in a path, they must be written quoted in the file."
